@@ -23,6 +23,7 @@ import HSModel.Proofs.RunInv
 import HSModel.Proofs.AbsLemmas
 import HSModel.Proofs.TrailStore
 import HSModel.Proofs.TrailNl
+import HSModel.Proofs.ConcInv
 namespace HS.C10
 variable (cfg : Config) (o : Oracle)
 
@@ -194,6 +195,43 @@ theorem pidless_calls_touch_no_pid (c : Call) (hc : c.pidStr = none) (K : Str) (
   rw [hc] at hs
   exact Prog.crashAt_inv (I := fun w' => SameFor K w.st w'.st) _ hs
     (frame_preserved cfg o _ _ (by intro q hq; cases hq) w.st) n w ⟨rfl, fun _ => rfl⟩
+
+/-- **Other pids are untouched under every interleaving.** Any number of threads running any calls
+    none of which is addressed to pid q (each call has no pid, or a pid whose hash differs from
+    q's and has the same length), from any world (any fault plan, any lock lists), under every
+    schedule and at every granularity of interleaving: after every step — hence also if the process
+    dies there — q has exactly the pid reference and the metadata documents it had at the start. -/
+theorem other_pids_untouched_under_every_interleaving (calls : List Call) (q : Str)
+    (hc : ∀ c ∈ calls, Foreign o c.pidStr (o.hId q)) (w0 : World) (fuel : Nat) (sched : List Nat) (n : Nat) :
+    SameFor (o.hId q) w0.st
+      (runSchedule fuel { w := w0, ts := calls.map (fun c => TState.fresh (c.prog cfg o)) } sched n).1.w.st := by
+  let P : Ev → Prop := fun e => ∃ p, Foreign o p (o.hId q) ∧ Shape cfg o p e
+  have hpres : Prog.Preserved P (fun w => SameFor (o.hId q) w0.st w.st) := by
+    intro w e hp hw
+    obtain ⟨p, hK, hs⟩ := hp
+    exact frame_preserved cfg o p _ hK w0.st w e hs hw
+  have h0 : SafeConf P (fun _ _ => True) (fun w => SameFor (o.hId q) w0.st w.st) (fun _ _ => True)
+      { w := w0, ts := calls.map (fun c => TState.fresh (c.prog cfg o)) } := by
+    refine ⟨⟨rfl, fun _ => rfl⟩, ?_⟩
+    intro i t hi
+    simp only at hi
+    rw [List.getElem?_map] at hi
+    cases hci : calls[i]? with
+    | none => rw [hci] at hi; cases hi
+    | some c =>
+      rw [hci] at hi; cases hi
+      apply Prog.safe_of_allEv
+      exact Prog.allEv_mono _ (fun e he => ⟨c.pidStr, hc c (List.mem_of_getElem? hci), he⟩) (call_shape cfg o c)
+  exact (safe_schedule hpres (fun _ _ _ => trivial) _ fuel sched _ n h0).1
+
+/-- the hypothesis in the usual form: every call has no pid or a pid with another hash -/
+theorem foreign_of_calls (calls : List Call) (q : Str)
+    (h : ∀ c ∈ calls, ∀ p, c.pidStr = some p → o.hId q ≠ o.hId p ∧ (o.hId q).length = (o.hId p).length) :
+    ∀ c ∈ calls, Foreign o c.pidStr (o.hId q) := by
+  intro c hc
+  cases hp : c.pidStr with
+  | none => intro r hr; cases hr
+  | some p => exact foreign_of_ne o p q (h c hc p hp).1 (h c hc p hp).2
 
 /-- the full statement of C10 also demands: (i) q stays a member of every shared
     cid reference list and its object stays in place at every crash point;
